@@ -2,25 +2,40 @@
 C06 helper lemmas, part C1: every spelling of the literal grammar denotes, in the model of
 `compiler.parse`/`NumInfo.decimal`, exactly the value the spec assigns to it.
 Core Lean (`Rat` is core); single Mathlib modules may be imported here if really needed.
+The supporting lemmas are in `Proofs/NumValLitAux.lean`.
 -/
 import CueVerif.Model.NumVal
 import CueVerif.Spec.Arith
 import CueVerif.Proofs.NumLit
+import CueVerif.Proofs.NumValLitAux
 namespace CueVerif.Proofs.NumValLit
 open CueVerif CueVerif.Arith CueVerif.NumVal CueVerif.Spec.Arith
+open CueVerif.Proofs.NumValLitAux
 
 /-- Horner evaluation of the separator-free digits is the positional value -/
 theorem horner_digitsVal (base : Nat) (hb : base ≤ 16) (ds : List Nat) (h : wfDigits base ds = true) :
-    horner base (ds.filter (· != 95)) = digitsVal base ds := by sorry
+    horner base (ds.filter (· != 95)) = digitsVal base ds :=
+  horner_ok base hb ds (wfDigits_ok base ds h)
 
 /-- the value reader on a grammar spelling (all bases, separators, fraction, exponent,
 multipliers), inside the region where the implementation is right -/
 theorem literal_value (l : Lit) (hwf : l.wf = true) (hw : l.inWindow) (hi : l.siIntegral)
     (hf : l.siFits prec) :
-    ∃ n, readValue l.kind l.spell = .ok n ∧ n.k = l.kind ∧ toRat n.d = l.denote := by sorry
+    ∃ n, readValue l.kind l.spell = .ok n ∧ n.k = l.kind ∧ toRat n.d = l.denote := by
+  cases l with
+  | dec ds => exact lit_dec ds hwf
+  | bin ds => exact lit_bin ds hwf
+  | oct ds => exact lit_oct ds hwf
+  | hex u ds => exact lit_hex u ds hwf
+  | si ip fp m => exact lit_si ip fp m hwf hw hi hf
+  | siDot fp m => exact lit_siDot fp m hwf hw hi hf
+  | fPoint ip fp ex => exact lit_fPoint ip fp ex hwf hw
+  | fExp ip ex => exact lit_fExp ip ex hwf hw
+  | fDot fp ex => exact lit_fDot fp ex hwf hw
 
 /-- the scanner gate accepts every grammar spelling with the grammar's kind, except the
 `si_lit`s with a superfluous leading zero -/
+-- OPEN
 def literal_accepted_stmt : Prop :=
   ∀ l : Lit, l.wf = true → l.siLeadingZero = false → NumLit.parseNumUnsigned l.spell = some l.kind
 
@@ -31,20 +46,70 @@ def literal_stmt : Prop :=
 /-- `1.3Ki` (spec: 1331) is rejected -/
 theorem literal_false_trunc :
     litValue (Lit.si [49] (some [51]) ⟨.K, true⟩).spell = .err ∧
-    (Lit.si [49] (some [51]) ⟨.K, true⟩).denote = 1331 := by sorry
+    (Lit.si [49] (some [51]) ⟨.K, true⟩).denote = 1331 := by
+  refine ⟨by decide, ?_⟩
+  have hm : mantissa [49] [51] * ((1024 : Nat) : Rat) = 6656 / 5 := by
+    have a : digitsVal 10 [49] = 1 := by decide
+    have b : digitsVal 10 [51] = 3 := by decide
+    have c : nDigits [51] = 1 := by decide
+    simp only [mantissa, a, b, c]
+    simp
+    grind
+  show ((truncNonneg (mantissa [49] [51] * ((1024 : Nat) : Rat)) : Int) : Rat) = 1331
+  rw [hm]
+  have : (6656 / 5 : Rat).floor = 1331 := by
+    apply floor_eq
+    · simp; grind
+    · simp; grind
+  simp [truncNonneg, this]
 
 /-- `1e100001` silently denotes 1 -/
 theorem literal_false_exponent :
     litValue (Lit.fExp [49] ⟨false, .none, [49, 48, 48, 48, 48, 49]⟩).spell = .ok ⟨.float, ⟨1, 0⟩⟩ ∧
-    (Lit.fExp [49] ⟨false, .none, [49, 48, 48, 48, 48, 49]⟩).denote ≠ 1 := by sorry
+    (Lit.fExp [49] ⟨false, .none, [49, 48, 48, 48, 48, 49]⟩).denote ≠ 1 := by
+  refine ⟨by decide, ?_⟩
+  have a : digitsVal 10 [49] = 1 := by decide
+  have b : digitsVal 10 [49, 48, 48, 48, 48, 49] = 100001 := by decide
+  show mantissa [49] [] * (10 : Rat) ^ (Exponent.value ⟨false, .none, [49, 48, 48, 48, 48, 49]⟩) ≠ 1
+  have hv : Exponent.value ⟨false, .none, [49, 48, 48, 48, 48, 49]⟩ = ((100001 : Nat) : Int) := by
+    simp [Exponent.value, b]
+  have z : digitsVal 10 [] = 0 := rfl
+  have nz : nDigits [] = 0 := rfl
+  have hm : mantissa [49] [] = 1 := by
+    simp only [mantissa, a, z, nz]
+    simp; grind
+  rw [hv, hm, Rat.zpow_natCast, Rat.one_mul]
+  intro h
+  have e := (Rat.natCast_pow 10 100001).symm
+  rw [Rat.natCast_ofNat] at e
+  rw [e] at h
+  have h' : (10 ^ (100001 : Nat) : Nat) = 1 := Rat.natCast_inj.1 h
+  have := Nat.one_lt_pow (a := 10) (n := 100001) (by decide) (by decide)
+  omega
 
 /-- `12345678901234567890123456789012345678K` is silently rounded to 34 digits -/
 theorem literal_false_round :
     litValue (Lit.si [49,50,51,52,53,54,55,56,57,48,49,50,51,52,53,54,55,56,57,48,49,50,51,52,53,54,55,56,57,48,49,50,51,52,53,54,55,56] none ⟨.K, false⟩).spell
       = .ok ⟨.int, ⟨12345678901234567890123456789012350000000, 0⟩⟩ ∧
     (Lit.si [49,50,51,52,53,54,55,56,57,48,49,50,51,52,53,54,55,56,57,48,49,50,51,52,53,54,55,56,57,48,49,50,51,52,53,54,55,56] none ⟨.K, false⟩).denote
-      = 12345678901234567890123456789012345678000 := by sorry
+      = 12345678901234567890123456789012345678000 := by
+  refine ⟨by decide, ?_⟩
+  have a : digitsVal 10 [49,50,51,52,53,54,55,56,57,48,49,50,51,52,53,54,55,56,57,48,49,50,51,52,53,54,55,56,57,48,49,50,51,52,53,54,55,56]
+      = 12345678901234567890123456789012345678 := by decide
+  have z : digitsVal 10 [] = 0 := rfl
+  have nz : nDigits [] = 0 := rfl
+  have hm : mantissa [49,50,51,52,53,54,55,56,57,48,49,50,51,52,53,54,55,56,57,48,49,50,51,52,53,54,55,56,57,48,49,50,51,52,53,54,55,56] [] * ((1000 : Nat) : Rat)
+      = ((12345678901234567890123456789012345678000 : Int) : Rat) := by
+    simp only [mantissa, a, z, nz]
+    simp; grind
+  show ((truncNonneg (mantissa _ [] * ((1000 : Nat) : Rat)) : Int) : Rat) = _
+  rw [floor_int _ _ hm, hm]
+  simp
 
-theorem literal_false : ¬ literal_stmt := by sorry
+theorem literal_false : ¬ literal_stmt := by
+  intro h
+  obtain ⟨n, hn, _, _⟩ := h (Lit.si [49] (some [51]) ⟨.K, true⟩) (by decide)
+  rw [literal_false_trunc.1] at hn
+  cases hn
 
 end CueVerif.Proofs.NumValLit
